@@ -6,8 +6,10 @@ package sim
 import (
 	"errors"
 	"fmt"
+	"runtime"
 	"runtime/debug"
 	"sort"
+	"strings"
 	"time"
 
 	"github.com/taurusgroup/multi-party-sig/pkg/party"
@@ -68,6 +70,7 @@ type Net struct {
 	Pending []*Delivery
 	Tape    *tape.Mux
 	seq     int
+	initial []initialBatch
 
 	// OnEmit may rewrite what a party emits (tampering). Returning nil keeps the message.
 	OnEmit func(from *Party, m *Msg) []*Msg
@@ -82,17 +85,31 @@ type Net struct {
 	ForceAccept bool
 	// Quiet parties whose outgoing traffic is discarded.
 	StepTimeout time.Duration
-	TimedOut    bool
-	Steps       int
-	Delivered   int
-	Dropped     int
+	// ConstructTimeout bounds handler construction (which cannot be drained concurrently).
+	ConstructTimeout time.Duration
+	TimedOut         bool
+	Steps            int
+	Delivered        int
+	Dropped          int
 }
 
 func New(mux *tape.Mux) *Net {
-	return &Net{Tape: mux, byName: map[string]*Party{}, StepTimeout: 180 * time.Second}
+	return &Net{Tape: mux, byName: map[string]*Party{}, StepTimeout: 180 * time.Second, ConstructTimeout: 20 * time.Second}
 }
 
 func (n *Net) Party(name string) *Party { return n.byName[name] }
+
+// HangError reports a handler call that does not return. Definite means the blocked goroutine was
+// found parked in a channel send that nobody can ever receive from (not a matter of timing).
+type HangError struct {
+	Where    string
+	Definite bool
+	Stack    string
+}
+
+func (h *HangError) Error() string {
+	return fmt.Sprintf("hang in %s (definite=%v)", h.Where, h.Definite)
+}
 
 // PanicError carries a panic raised inside a handler call.
 type PanicError struct {
@@ -108,7 +125,37 @@ func (n *Net) Add(name string, id party.ID, construct func() (protocol.Handler, 
 	if n.Tape != nil {
 		n.Tape.Use(name)
 	}
-	h, err := construct()
+	type res struct {
+		h   protocol.Handler
+		err error
+	}
+	done := make(chan res, 1)
+	go func() {
+		var r res
+		if perr := guard("constructor", func() { r.h, r.err = construct() }); perr != nil {
+			r.err = perr
+		}
+		done <- r
+	}()
+	var h protocol.Handler
+	var err error
+	timer := time.NewTimer(n.ConstructTimeout)
+	defer timer.Stop()
+	select {
+	case r := <-done:
+		h, err = r.h, r.err
+	case <-timer.C:
+		// nobody can drain a handler that does not exist yet: a constructor parked in a channel send is a definite hang
+		buf := make([]byte, 1<<20)
+		buf = buf[:runtime.Stack(buf, true)]
+		for _, g := range strings.Split(string(buf), "\n\n") {
+			if strings.Contains(g, "[chan send") && (strings.Contains(g, "NewMultiHandler") || strings.Contains(g, "NewTwoPartyHandler")) {
+				return nil, &HangError{Where: "constructor", Definite: true, Stack: g}
+			}
+		}
+		n.TimedOut = true
+		return nil, &HangError{Where: "constructor", Definite: false}
+	}
 	if err != nil {
 		return nil, err
 	}
@@ -118,8 +165,23 @@ func (n *Net) Add(name string, id party.ID, construct func() (protocol.Handler, 
 	p := &Party{Name: name, ID: id, H: h, ch: h.Listen()}
 	n.Parties = append(n.Parties, p)
 	n.byName[name] = p
-	n.collect(p, n.drainNow(p))
+	// first messages are posted by Start, once every party exists
+	n.initial = append(n.initial, initialBatch{p, n.drainNow(p)})
 	return p, nil
+}
+
+type initialBatch struct {
+	p     *Party
+	batch []*Msg
+}
+
+// Start posts the first messages of all parties added so far (idempotent per batch).
+func (n *Net) Start() {
+	init := n.initial
+	n.initial = nil
+	for _, b := range init {
+		n.collect(b.p, b.batch)
+	}
 }
 
 func (n *Net) drainNow(p *Party) []*Msg {
@@ -304,6 +366,7 @@ func FromList(list []int) Chooser {
 
 // Run delivers until nothing is pending (quiescence) or maxSteps is hit.
 func (n *Net) Run(choose Chooser, maxSteps int) error {
+	n.Start()
 	for len(n.Pending) > 0 {
 		if n.Steps >= maxSteps {
 			return fmt.Errorf("sim: more than %d steps", maxSteps)
